@@ -25,6 +25,9 @@ func init() {
 `})
 	addPrelude(&PreludeFn{Name: "powr", Args: []string{"real", "real"}, Ret: "real", SMT: `
 (declare-fun powr (Real Real) Real)
+(assert (forall ((x Real)) (! (= (powr x 2.0) (* x x)) :pattern ((powr x 2.0)))))
+(assert (forall ((x Real)) (! (= (powr x (- 1.0)) (/ 1.0 x)) :pattern ((powr x (- 1.0))))))
+(assert (forall ((x Real)) (! (= (powr x 1.0) x) :pattern ((powr x 1.0)))))
 `})
 	// psum(s, i) = s[0] + ... + s[i-1]
 	addPrelude(&PreludeFn{Name: "psum", Args: []string{"stream", "int"}, Ret: "real", Deps: []string{"sel_Real"}, SMT: `
@@ -43,5 +46,29 @@ func init() {
 (declare-fun since_{T} (Int Int) Int)
 (assert (forall ((s Int) (k Int)) (! (=> (or (<= k 0) (not (= (sel_{T} s k) (sel_{T} s (- k 1))))) (= (since_{T} s k) 0)) :pattern ((since_{T} s k)))))
 (assert (forall ((s Int) (k Int)) (! (=> (and (> k 0) (= (sel_{T} s k) (sel_{T} s (- k 1)))) (= (since_{T} s k) (+ (since_{T} s (- k 1)) 1))) :pattern ((since_{T} s k)))))
+`})
+	// emaS(a,P,m,k): documented EMA recursion seeded with the SMA of the first P values; value k is the EMA at input position k+P-1
+	addPrelude(&PreludeFn{Name: "emaS", Args: []string{"stream", "int", "real", "int"}, Ret: "real", Deps: []string{"psum", "sel_Real"}, SMT: `
+(declare-fun emaS (Int Int Real Int) Real)
+(assert (forall ((a Int) (P Int) (m Real) (k Int)) (! (=> (<= k 0) (= (emaS a P m k) (/ (psum a P) (to_real P)))) :pattern ((emaS a P m k)))))
+(assert (forall ((a Int) (P Int) (m Real) (k Int)) (! (=> (> k 0) (= (emaS a P m k) (+ (* (- (sel_Real a (+ k (- P 1))) (emaS a P m (- k 1))) m) (emaS a P m (- k 1))))) :pattern ((emaS a P m k)))))
+`})
+	// rmaS(a,P,k): Wilder's smoothing ((prev*(P-1))+x)/P seeded with the SMA of the first P values
+	addPrelude(&PreludeFn{Name: "rmaS", Args: []string{"stream", "int", "int"}, Ret: "real", Deps: []string{"psum", "sel_Real"}, SMT: `
+(declare-fun rmaS (Int Int Int) Real)
+(assert (forall ((a Int) (P Int) (k Int)) (! (=> (<= k 0) (= (rmaS a P k) (/ (psum a P) (to_real P)))) :pattern ((rmaS a P k)))))
+(assert (forall ((a Int) (P Int) (k Int)) (! (=> (> k 0) (= (rmaS a P k) (/ (+ (* (rmaS a P (- k 1)) (to_real (- P 1))) (sel_Real a (+ k (- P 1)))) (to_real P)))) :pattern ((rmaS a P k)))))
+`})
+	// hor(s,k): an upper bound on the last root-input position that values s[0..k] may depend on (C04).
+	// Prefix-closed by definition, hence monotone in k; -1 means "depends on no input".
+	addPrelude(&PreludeFn{Name: "hor", Args: []string{"stream", "int"}, Ret: "int", SMT: `
+(declare-fun hor (Int Int) Int)
+(assert (forall ((s Int) (j Int) (k Int)) (! (=> (<= j k) (<= (hor s j) (hor s k))) :pattern ((hor s j) (hor s k)))))
+(assert (forall ((s Int) (k Int)) (! (and (>= (hor s k) (- 1)) (=> (< k 0) (= (hor s k) (- 1)))) :pattern ((hor s k)))))
+`})
+	// warmup(s): the (abstract, non-negative) warm-up of a strategy value behind the Strategy interface (C05)
+	addPrelude(&PreludeFn{Name: "warmup", Args: []string{"ref"}, Ret: "int", SMT: `
+(declare-fun warmup (Ref) Int)
+(assert (forall ((s Ref)) (! (>= (warmup s) 0) :pattern ((warmup s)))))
 `})
 }
